@@ -189,7 +189,7 @@ def run(ctx):
     poll_, reach_, acc, cells, cmps = dispatch_setup(F, P)
     res = run_jobs(F, [{'key': 'owed', 'entry': poll_.id, 'aut': ('custom', OwedCancelAut), 'acc': acc, 'cells': cells}])['owed']
     R.count('states_explored', res['stats'].get('states', 0))
-    owed_exits = sorted({repr(ret)[:40] for (ret, e, lab) in res['exits'] if e[0] == 'owed' and not ('Err' in repr(ret)) and not any(isinstance(v, tuple) and v and v[0] == 'Some' for _, v in e[1])})
+    owed_exits = sorted({(e[0], repr(ret)[:40]) for (ret, e, lab) in res['exits'] if e[0] in ('owed', 'taken') and not ('Err' in repr(ret)) and not any(isinstance(v, tuple) and v and v[0] == 'Some' for _, v in e[1])})
     R.ob('C03.owed', ('dispatch poll', 'a cancellation taken for an in-flight request is written before the dispatch returns'), not owed_exits and not res['viol'],
          'once an id was taken from the cancellation queue and its entry removed, the Cancel is handed to the transport in the same activation (or the dispatch ends with an error): it cannot be dropped by an early return',
          sorted({s_ for v in res['viol'].values() for s_ in v}) or [poll.loc(poll.d)], 'exits with an unwritten cancellation: %s; %s' % (owed_exits, list(res['viol'])))
@@ -220,7 +220,5 @@ class OwedCancelAut:
         if ev == ('M', 'remove') and aut == 'taken':
             return 'owed' if 'Some' in repr(shape) else 'idle'
         if ev == ('W', 'start_send') and aut == 'owed':
-            return 'idle'
-        if ev[0] in ('R', 'Q', 'T') and aut == 'taken':
             return 'idle'
         return aut
